@@ -177,6 +177,8 @@ def _float_to_fraction_str(v):
     """a float constant read as the real number its shortest decimal repr
     denotes (floats are modelled as mathematical reals anyway)"""
     from fractions import Fraction
+    if v.is_integer():
+        return "%d/1" % int(v)           # integral floats (thresholds such as the binary32 overflow bound) exactly
     f = Fraction(repr(v))
     return "%d/%d" % (f.numerator, f.denominator)
 
